@@ -21,7 +21,7 @@ def hist_of(*key):
     h = 0
     for k in key:
         h = (h * 131 + (int(k) if not isinstance(k, str) else sum(map(ord, k)))) % 1000003
-    return h % 11
+    return h % 12
 
 
 def empty_via_history(h, init, signed, n, f, **cfg):
@@ -74,6 +74,14 @@ def mk(codes, signed, n, f, dirty_ok=False, **cfg):
         h = 1       # indexing / flatten deep-copy the configuration, so an op_out target would (rightly) be a copy: not this route
     if h in (8, 9):
         return primed(h, codes, signed, n, f, **cfg)
+    if h == 11 and 'shifting' not in cfg:
+        # the operand is the result of a shift by zero in trunc mode (the identity, C14): an object whose value was assigned by
+        # the keep-mode shift rather than by a store
+        x0 = mk(codes, signed, n, f, dirty_ok=False, shifting='trunc', **cfg) if False else Fxp(codes[0] if len(codes) == 1 else np.array(codes, dtype=np.int64), signed, n, f, raw=True, shifting='trunc', **cfg)
+        x = x0 >> 0
+        x.config.shifting = 'expand'
+        assert codes_of(x) == list(codes) and (x.signed, x.n_word, x.n_frac) == (signed, n, f)
+        return x
     if h == 10:
         # the codes arrive as the outcome of storing integers far beyond 64 bits (exactly: the overflow action folds them
         # onto the codes under test): under wrap any code, under saturate the two bounds. Whatever carrier such a store
